@@ -27,14 +27,25 @@ PID = "C01"
 THEOREMS = [
     "PorepyVerif.C01.lib_rules_sound",
     "PorepyVerif.C01.arith_rules_sound",
+    "PorepyVerif.C01.max_rules_sound",
+    "PorepyVerif.C01.rule_sound_l2_norm",
     "PorepyVerif.C01.rule_sound_safe_power",
+    "PorepyVerif.C01.rule_regularized_heaviside",
+    "PorepyVerif.C01.regularized_heaviside_not_exact",
     "PorepyVerif.C01.safe_power_generated_known",
     "PorepyVerif.C01.safe_power_as_found_unsound",
     "PorepyVerif.C01.rules_covered",
     "PorepyVerif.C01.raising_table",
     "PorepyVerif.C01.lib_plain_eq_val",
+    "PorepyVerif.C01.plain_raising_known",
     "PorepyVerif.C01.ad_val",
     "PorepyVerif.C01.ad_jac",
+    "PorepyVerif.C01.prog_ad_val",
+    "PorepyVerif.C01.prog_ad_jac",
+    "PorepyVerif.C01.den_subst",
+    "PorepyVerif.C01.ad_subst",
+    "PorepyVerif.C01.excluded_sets",
+    "PorepyVerif.C01.kinks_necessary",
 ]
 LEAN_MODULES = ["PorepyVerif.C01.Props"]
 AUDIT = "PorepyVerif/C01/Audit.lean"
@@ -45,7 +56,8 @@ RULE = ("random AD program trees of depth 1-5 over 1-4 variables from initAdArra
         "AdArrays (including the same object on both sides), straight-line programs with 0-3 shared intermediate results so that "
         "variables and results are used by several later operations as the SAME python object (expression DAGs), sparse matrices on the left (csr/csc, empty rows), row slicing "
         "(int, negative int, slices with steps, index arrays with repeats), every library function with its parameters, l2_norm "
-        "(dim 1-3), maximum (AdArray/array/scalar on either side); operands are drawn so that every intermediate value lies inside "
+        "(dim 1-3), maximum (AdArray/array/scalar on either side), RegularizedHeaviside; every library function is also called with the plain "
+        "numpy array and must return the AdArray's values; operands are drawn so that every intermediate value lies inside "
         "the smooth domain of the next operation with a margin and stays below 1e4; plus ~5% trees that sit exactly ON a kink "
         "(ties in maximum, zero vectors in l2_norm, abs/heaviside at 0: compared with the model only) and ~6% trees with one "
         "illegal operation (sparse operand, @ misuse, size mismatch, bad l2_norm size, slice out of range: error kinds compared). "
@@ -56,11 +68,17 @@ TRUSTED = [
     "SExpr.evalF (Float, driver) and SExpr.evalR (reals, theorems) are two readings of the same generated terms; that Lean's Float functions (libm) and numpy agree to 1e-9 relative is checked by the correspondence run, not proved",
     "a ** b is read as Real.rpow: agrees with C pow for positive bases and for integer exponents (Real.rpow_intCast); arccosh/arctanh/arcsinh are Mathlib's arcosh/artanh/arsinh",
     "modelled, not verified: scipy sparse products and formats, numpy broadcasting of python scalars, pp.matrix_operations.merge_matrices / slice_sparse_matrix inside maximum (C35), binary64 rounding",
-    "hand-modelled (not translated): l2_norm, maximum, __getitem__, initAdArrays (their source text is pinned by the translator; Expr.l2norm / Expr.maximum / Expr.slice / Expr.var in the theorems, Tree.* in the driver); RegularizedHeaviside is not covered",
+    "hand-modelled (source text pinned by the translator, not translated): __getitem__, initAdArrays, and the index bookkeeping of l2_norm that places factor k of group g in row g / column dim*g+k (Expr.slice / Expr.var / Expr.l2norm in the theorems, Tree.* in the driver); the numerical part of l2_norm, all five operand combinations of maximum and RegularizedHeaviside (with heaviside_smooth as regularization) are generated rules",
+    "the translator refuses to run when a top-level function or class of functions.py has no rule (Gen.functions_found, theorem rules_covered) or when an interpreted function alters an operand in place",
+    "RegularizedHeaviside is by design outside the property (value = sharp step, Jacobian = that of the regularization: theorems rule_regularized_heaviside / regularized_heaviside_not_exact); its Jacobian is compared with the model only",
     "aliasing / in-place modification of operands is a run-time notion the immutable Lean model cannot exhibit (a shared sub-expression is simply expanded in the model): that no operation alters an AdArray it is given is checked by the oracle only (operands and all inputs / shared results are compared bit for bit with copies taken before), and shows up in the correspondence as a wrong Jacobian of a later use",
     "the tree theorems index rows by natural numbers; array lengths and the size errors of the code are part of the Float model only",
 ]
-EXPLANATION = ("FULL on the smooth domain. Per generated rule: value expression = the real operation, Jacobian factor(s) = its derivative "
+EXPLANATION = ("Deepening round: maximum (5 operand combinations), l2_norm and RegularizedHeaviside are generated rules with their own soundness "
+               "theorems; prog_ad_val / prog_ad_jac extend ad_val / ad_jac to straight-line programs with shared results (expression DAGs; "
+               "den_subst / ad_subst: sharing = substitution); excluded_sets / kinks_necessary classify what the rule domains exclude "
+               "(kinks of measure zero vs. domain restrictions). "
+               "FULL on the smooth domain. Per generated rule: value expression = the real operation, Jacobian factor(s) = its derivative "
                "(HasDerivAt / joint HasFDerivAt) on an explicit domain. ad_val / ad_jac: for every program tree built from such rules, "
                "left matrix products, slicing, l2_norm (rows above its tolerance) and maximum (rows not tied), at every point, "
                "forward-mode values equal the plain evaluation and every Jacobian row is the Frechet derivative of that output "
@@ -99,6 +117,7 @@ def bits2f(b):
 LIB_SIG = {  # function -> order of (parameters..., var) as in functions.py; params are taken from node["p"]
     "safe_power": ("p", "p", "p", "var"), "heaviside": ("p", "var"), "heaviside_smooth": ("var", "p"), "characteristic_function": ("p", "var"),
 }
+REG = "regularized_heaviside"  # RegularizedHeaviside(partial(heaviside_smooth, eps=p[0]))(var, zerovalue=p[1])
 UNARY = ["exp", "log", "abs", "sin", "cos", "tan", "arcsin", "arccos", "arctan", "sinh", "cosh", "tanh", "arcsinh", "arccosh", "arctanh"]
 OPS = ["add", "radd", "sub", "rsub", "mul", "rmul", "pow", "rpow", "truediv", "rtruediv"]
 
@@ -112,6 +131,8 @@ def _np_fn(f, x, p):
         return x * np.sign(re)
     if f == "heaviside":
         return np.heaviside(re, p[0]) + 0 * x
+    if f == REG:
+        return np.heaviside(re, 0.0) + 0 * x
     if f == "heaviside_smooth":
         return 0.5 * (1 + (2 / np.pi) * np.arctan(x / p[0]))
     if f == "characteristic_function":
@@ -263,6 +284,9 @@ def _apply(t, a, b, c):
         if t["f"] == "neg":
             return -a
         p = [F(x) for x in t["p"]]
+        if t["f"] == REG:
+            from functools import partial
+            return af.RegularizedHeaviside(partial(af.heaviside_smooth, eps=p[0]))(a, p[1])
         sig = LIB_SIG.get(t["f"], ("var",))
         it = iter(p)
         return getattr(af, t["f"])(*[a if s == "var" else next(it) for s in sig])
@@ -391,9 +415,9 @@ def _model_tree(t, sizes, L=(), Lm=()):
         return {"k": "l2", "dim": t["dim"], "a": _model_tree(t["a"], sizes, L, Lm)}
     if k == "max":
         return {"k": "max", "a": _model_tree(t["a"], sizes, L, Lm), "b": _model_tree(t["b"], sizes, L, Lm)}
-    n = size_of(t["a"], sizes, L) or 0
-    c = t["c"] if "c" in t else [t["s"]] * n  # a python scalar is broadcast (np.ones_like * scalar)
-    return {"k": k, "a": _model_tree(t["a"], sizes, L, Lm), "c": c}
+    out = {"k": k, "a": _model_tree(t["a"], sizes, L, Lm)}
+    out.update({"s": t["s"]} if "s" in t else {"c": t["c"]})
+    return out
 
 
 def model_ops(case):
@@ -521,6 +545,18 @@ def _check(tree, case, jac_check=True, L=None):
         d = _close_arr(r.val, want, 1e-10)
         if d:
             return (f"value differs from plain numpy evaluation, {d}", "val")
+        # the library function's own numpy-array branch must give the same values
+        # (for RegularizedHeaviside only on the nodes marked by the generator: that branch is a listed finding, and cases that hit a
+        # listed finding are not compared with the model)
+        if tree["k"] in ("fn", "l2") and tree.get("f") != "neg" and (tree.get("f") != REG or tree.get("check_plain")):
+            try:
+                cv = np.real(np_eval(tree["a"], X, L))
+                pv = _apply(tree, np.array(cv, dtype=float), None, None)
+            except Exception as e:
+                return (f"{type(e).__name__} ({str(e)[:80]}) when the function is given the plain numpy array", f"plain-raises-{type(e).__name__}")
+            d = _close_arr(pv, want, 1e-10)
+            if d:
+                return (f"numpy-array branch differs from the AdArray value, {d}", "plain-val")
         if not jac_check:
             return None
         J = r.jac.toarray() if sps.issparse(r.jac) else np.asarray(r.jac)
@@ -590,7 +626,9 @@ def oracle(case):
         return None
     if case.get("kind") == "error":
         return _localise(case, False)  # the legal sub-expressions must still be right
-    jac_check = case.get("kind") != "kink"
+    # RegularizedHeaviside reports the Jacobian of its regularization, by design not the derivative of its value
+    # (Props.regularized_heaviside_not_exact): programs using it are compared with the model only
+    jac_check = case.get("kind") != "kink" and not any(n.get("f") == REG for n in _case_nodes(case))
     top = _check(tree, case, jac_check)
     if top is None:
         return None
@@ -666,6 +704,7 @@ class _Gen:
             c.append("log")
         if np.all(np.abs(cv) > 0.02):
             c += ["abs", "heaviside", "safe_power"]
+            c.append(REG)
         if np.all(np.abs(np.cos(cv)) > 0.2):
             c.append("tan")
         if np.all(np.abs(cv) < 0.95):
@@ -704,6 +743,9 @@ class _Gen:
             p = [frac(r.choice([0.0, 0.5, 1.0]))]
         elif f == "heaviside_smooth":
             p = [frac(r.choice([1e-3, 0.5, 2.0, 0.125]))]
+        elif f == REG:
+            p = [frac(r.choice([1e-3, 0.5, 2.0])), frac(r.choice([0.0, 0.5, 1.0]))]
+            return {"k": "fn", "f": f, "p": p, "check_plain": r.random() < 0.4, "a": child}
         elif f == "characteristic_function":
             m = float(np.min(np.abs(cv)))
             big = float(np.max(np.abs(cv)))
